@@ -460,7 +460,7 @@ def classify(e, inline):
             return any(walk(y, False) for y in x)
         if 'prim' not in x:
             return False
-        if any(re.search(r'.[@%]', a) for a in x.get('annots', [])):
+        if any(re.search(r'[_0-9a-zA-Z.][@%]', a) for a in x.get('annots', [])):
             found.add('annotation-with-inner-marker-is-split-by-the-lexer')
         if is_arg and (x.get('args') or x.get('annots')):
             sub = real_format(x, True)
